@@ -443,7 +443,7 @@ func Main(args []string) {
 	}
 	ev := evidence.Evidence{PropertyID: "C12", Tier: tier, Seed: int(r.seed), Level: "model_checking", Coverage: cov,
 		Assumptions: []string{
-			"the documented language is doc/queries.md plus the statement's sub-qualifier (metadata:key:value): qualifier:value, double quotes around values with spaces, colons or apostrophes, bare or quoted search terms, at most one sort, clauses separated by one space; double quotes delimit and an apostrophe inside them is an ordinary character (values can't, can't reproduce, it's:here, 'tis 'twas, 'quoted' must round-trip for every qualifier kind and evaluate against a bug titled can't reproduce, a label it's, an identity O'Neil, a metadata value it's:here); an unterminated double quote is malformed whatever it contains",
+			"the documented language is doc/queries.md plus the statement's sub-qualifier (metadata:key:value): qualifier:value, double quotes around values with spaces, colons or apostrophes, bare or quoted search terms, at most one sort, clauses separated by one space; double quotes delimit and an apostrophe inside them is an ordinary character (values can't, can't reproduce, it's:here, 'tis 'twas, 'quoted' must round-trip for every qualifier kind and evaluate against a bug titled can't reproduce, a label it's, an identity O'Neil, a metadata value it's:here); an unterminated double quote is malformed whatever it contains; a metadata key is written like a value (in double quotes when it contains a space, a colon or an apostrophe: tracker url, origin:kind, it's key) and denotes the text between the quotes; a qualifier written in double quotes (\"status\":open, \"metadata\":\"tracker url\":v) is that qualifier, as the unchanged lexer treats every chunk alike",
 			"where the documentation and the statement are silent the inputs avoid the question (label, metadata and search values never differ from population values only by case; search words are whole lower-case words with no near neighbours for the stemmer; the harness checks this and stops otherwise) or every outcome is accepted (single-quote-delimited values including an apostrophe outside double quotes such as title:can't, upper-case keywords, aliases, empty quoted values: never-panic only; several search terms: any set between all-of and any-of; fully tied bugs: any order)",
 			"title matching is case-insensitive like name and login matching (doc/queries.md: queries are case insensitive); case-insensitive means Unicode simple case mapping per letter (strings.ToLower on both sides): names, logins and titles whose only capitals are non-ASCII (Émile, Ørsted, Überlauf, Дмитрий, Ωμέγα) or that are stored in lower case (zähler) are queried as stored, all lower, all upper and with only the non-ASCII letter flipped; letters whose case mapping is not one-to-one (ß/ẞ, dotless i, final sigma) are left out", "a query object handed to Query is the caller's: evaluating it must leave it as parsed and evaluating the same object again must give the same answer (checked for quoted multi-word search terms, three evaluations each; the phrase result itself is not compared with the reference)", "a search word may be carried by more than ten bugs (ubiquitous: all 12 bugs of the filters population, frequent: 11): the result must still be every satisfying bug", "sorted by creation / edit means by Lamport time, equal Lamport times by unix stamp (cache/bug_excerpt.go); default order is creation, descending",
 			"the reference reads bugs and identities back from git at the entity level (bug.ReadAll), not from excerpts; interpreting operations into snapshots is C10's subject and trusted here",
